@@ -75,6 +75,21 @@ def gen_history(rng, tier):
             kind = 'x' if rng.random() < 0.6 else 'asm'
             name = 'src%d.%s' % (len(have), 'x' if kind == 'x' else 'S')
             if rng.random() < 0.65:
+                if kind == 'x' and rng.random() < 0.3:
+                    # "as far as the host's 8-bit status can carry it": exit values on and around the multiples of 256
+                    v = rng.choice([0, 1, 7, 255, 256, 257, 511, 512, 65536, 65537, 0x1000000, 0x7FFFFF00, 2**31 - 1, -1, -255, -256, -257, -65536, -2**31])
+                    lit = ('hex', v % 2**32) if v < 0 else ('num', v)
+                    body = [('syscall', 0, [lit])]
+                    if rng.random() < 0.5:
+                        body.insert(0, ('syscall', 1, [('num', 65 + rng.randint(0, 25)), ('num', 0)]))
+                    P = dict(globals=[], procs=[dict(kind='proc', name='main', formals=[], locals=[], body=('seq', body))])
+                    inp = b''
+                    I = xcase.interpret(P, inp, {}, tier)
+                    info = dict(input='', out=bytes(I.out.get('con', b'')).hex(), exit=I.exit & 0xFFFFFFFF, used=0)
+                    text = xlang.p_prog(P)
+                    have.append((name, kind, True, text, info))
+                    ops.append(dict(op='write', name=name, text=text))
+                    continue
                 if kind == 'x':
                     P, inp, files = xgen.gen_program(rng, tier)
                     try:
